@@ -1,5 +1,8 @@
 import CJ.Lemmas.ConnHandler
+import CJ.Lemmas.WrapCls
 import CJ.Gen.ConnCalls
+import CJ.Gen.PrefixTable
+import CJ.Gen.WrapConsts
 /-!
 # C03 — unauthenticated connections get no bytes and no early close
 
@@ -14,12 +17,18 @@ When they fail the handler returns at once (`geoip_failure_returns_at_once`): a 
 kind in an otherwise accepted configuration is a deployment assumption, stated here, not hidden.
 
 A *probe* is a script on which no possible transport ever answers `found` or an error on any prefix
-of what the peer sends (`NoMatch`).  That the concrete transports answer an error only after a
-registered identifier / mark was found is part of C02 (`transport_error_needs_match`).
+of what the peer sends (`NoMatch`).  The first part of the file is parametric in the transports; the
+section "the real transports" instantiates them with the C02 models of min / prefix / obfs4
+(`CJ/Model/Wrap.lean`, over the regenerated prefix table in any iteration order) and proves that they
+answer an error or a match only after a **registered** identifier / mark was presented
+(`transport_error_needs_registered_tag`, `match_needs_registered_tag`), so that `NoMatch` follows from
+"no prefix of the stream presents a registered tag" (`untagged_is_probe`), and that they have all given
+up by 8192 buffered bytes (`real_transports_give_up_by_8192`, constants regenerated from the code).
 The handler model has no `write` action at all: the only operations it performs on the client
-connection are arming the deadline and reading; the harness checks the same on the real code (the
-set of `net.Conn` methods the handler invokes), and everything else it does with the connection
-(clearing the deadline, wrapping, proxying) is shown here to happen only after a `found` verdict.
+connection are arming the deadline and reading; that the real function does nothing else with the
+connection is the regenerated syntactic fact `conn_calls_ok` (and the harness' recording connection),
+and everything else the model does with the connection (clearing the deadline, wrapping, proxying) is
+shown here to happen only after a `found` verdict.
 -/
 namespace CJ.Props.C03
 open CJ.ConnHandler
@@ -64,10 +73,12 @@ private theorem split_in_tail {α : Type} (p : α → Bool) :
       obtain ⟨q, h1, h2⟩ := ih tail pre post x (fun a ha => hP a (List.mem_cons_of_mem _ ha)) hx h.2
       exact ⟨q, by simp [h.1, h1], h2⟩
 
-/-- **No write, no wrapping, no proxying without a match.**  The handler touches the connection beyond
-arming the deadline and reading (it clears the deadline, marks a registration active, hands the
-connection to the proxy) only after some transport answered `found` for that very registration. -/
-theorem no_write_without_match (cls : T → Bytes → Verdict R) (sched : Nat → List T → List T)
+/-- **No hand-off without a match.**  The handler touches the connection beyond arming the deadline and
+reading (it clears the deadline, marks a registration active, hands the connection to the proxy — the
+only place from which bytes can be written to the peer) only after some transport answered `found` for
+that very registration.  (The model has no write action; "no `Write`/`Close` in the handler itself" is
+`conn_calls_ok` below.) -/
+theorem no_handoff_without_match (cls : T → Bytes → Verdict R) (sched : Nat → List T → List T)
     (count : Nat) (ts : List T) (evs : List Ev) (a : Act T R)
     (ha : a ∈ handler cls sched .ok count ts evs)
     (hact : a = .clearDeadline ∨ (∃ r, a = .markActive r) ∨ (∃ r s, a = .proxy r s)) :
@@ -204,24 +215,34 @@ theorem probe_never_sleeps (cls : T → Bytes → Verdict R) (sched : Nat → Li
   intro h
   rcases probe_only_reads cls sched hs count ts evs hn _ h with h | ⟨_, h⟩ | h <;> cases h
 
+/-- If every possible transport answers not-transport on the buffer a read completes, that pass removes
+them all and from there on the handler only discards what arrives until the first read error. -/
+theorem gives_up_at (cls : T → Bytes → Verdict R) (sched : Nat → List T → List T)
+    (hs : SchedOk sched) (t : T) (ts : List T) (i : Nat) (buf c : Bytes) (evs : List Ev)
+    (hB : ∀ u ∈ t :: ts, cls u (buf ++ c) = .notT) :
+    ∃ qs : List (Act T R), (∀ a ∈ qs, ∃ u, a = Act.query u (buf ++ c).length .notT) ∧
+      loop cls sched i (t :: ts) buf (.data c :: evs) =
+        Act.readData c.length :: (qs ++ Act.discardUntilErr :: CJ.ConnHandler.discard evs) := by
+  have hall : ∀ u ∈ sched i (t :: ts), cls u (buf ++ c) = .notT :=
+    fun u hu => hB u ((hs i (t :: ts) u).mp hu)
+  obtain ⟨h2, hq⟩ := pass_all_notT cls (buf ++ c) (sched i (t :: ts)) [] hall
+  refine ⟨(pass cls (buf ++ c) (sched i (t :: ts)) []).1, hq, ?_⟩
+  simp only [loop]
+  rw [h2]
+  cases evs <;> simp [loop]
+
 /-- **Gives up after a bounded number of bytes, and keeps reading.**  If every possible transport
-answers not-transport on every buffer of at least `B` bytes (8192, the longest obfs4 handshake, for the
-real transports when nothing matched), then the pass that first sees `B` buffered bytes removes them
-all and from there on the handler only discards what arrives until the first read error. -/
+answers not-transport on every buffer of at least `B` bytes, then the pass that first sees `B` buffered
+bytes removes them all and from there on the handler only discards what arrives until the first read
+error.  Instantiated for the real transports with `B = 8192` in `real_transports_give_up_by_8192`. -/
 theorem gives_up_bounded (cls : T → Bytes → Verdict R) (sched : Nat → List T → List T)
     (hs : SchedOk sched) (B : Nat) (t : T) (ts : List T)
     (hB : ∀ u ∈ t :: ts, ∀ b : Bytes, B ≤ b.length → cls u b = .notT)
     (i : Nat) (buf c : Bytes) (evs : List Ev) (hlen : B ≤ (buf ++ c).length) :
     ∃ qs : List (Act T R), (∀ a ∈ qs, ∃ u, a = Act.query u (buf ++ c).length .notT) ∧
       loop cls sched i (t :: ts) buf (.data c :: evs) =
-        Act.readData c.length :: (qs ++ Act.discardUntilErr :: CJ.ConnHandler.discard evs) := by
-  have hall : ∀ u ∈ sched i (t :: ts), cls u (buf ++ c) = .notT :=
-    fun u hu => hB u ((hs i (t :: ts) u).mp hu) _ hlen
-  obtain ⟨h2, hq⟩ := pass_all_notT cls (buf ++ c) (sched i (t :: ts)) [] hall
-  refine ⟨(pass cls (buf ++ c) (sched i (t :: ts)) []).1, hq, ?_⟩
-  simp only [loop]
-  rw [h2]
-  cases evs <;> simp [loop]
+        Act.readData c.length :: (qs ++ Act.discardUntilErr :: CJ.ConnHandler.discard evs) :=
+  gives_up_at cls sched hs t ts i buf c evs (fun u hu => hB u hu _ hlen)
 
 /-- Why the GeoIP hypothesis is needed: when the remote address is not an IP or a lookup fails, the
 handler returns at once — before arming a deadline or reading. -/
@@ -229,6 +250,120 @@ theorem geoip_failure_returns_at_once (cls : T → Bytes → Verdict R) (sched :
     (geo : Geo) (hg : geo ≠ .ok) (count : Nat) (ts : List T) (evs : List Ev) :
     handler cls sched geo count ts evs = [.ret] := by
   cases geo <;> simp [handler] at hg ⊢
+
+/-! ## The real transports
+
+`CJ.WrapCls.cls w` are the C02 models of `WrapConnection` of min, prefix and obfs4 as classifiers of the
+handler, for a station environment `w`: the valid registrations on the probed phantom, the tag-reveal
+and mark-search oracles, and the order in which the supported-prefix map is iterated at each call. -/
+
+open CJ.WrapCls in
+/-- the station iterates, at every call and in some order, exactly the prefix table the code ships
+(regenerated from `prefix.DefaultPrefixes` on every run) -/
+def StationEnv (w : CJ.WrapCls.Env) : Prop := ∀ d e, e ∈ w.table d ↔ e ∈ CJ.Gen.prefixTable
+
+/-- every shipped prefix leaves room for the whole tag before its decision length (no out-of-range slice) -/
+theorem prefix_table_wf : ∀ e ∈ CJ.Gen.prefixTable, e.offset + 64 ≤ max e.minLen e.maxLen := by decide
+
+/-- no decision length of a shipped prefix exceeds the obfs4 maximum handshake length -/
+theorem prefix_table_bound : ∀ e ∈ CJ.Gen.prefixTable, e.minLen ≤ 8192 ∧ e.maxLen ≤ 8192 := by decide
+
+/-- the length constants of the transport models are the ones the code uses -/
+theorem model_constants_match_code :
+    CJ.Gen.WrapConsts.minTagLen = CJ.Wrap.minTagLen ∧ CJ.Gen.prefixTagLen = CJ.Wrap.prefixTagLen ∧
+    CJ.Gen.WrapConsts.obfs4ClientMinHandshake = CJ.Wrap.obfs4MinHandshake ∧
+    CJ.Gen.WrapConsts.obfs4MaxHandshake = CJ.Wrap.obfs4MaxHandshake ∧
+    2 * CJ.Gen.WrapConsts.obfs4IdentLen = CJ.Wrap.obfs4IdentHexLen := by decide
+
+theorem StationEnv.tableWf {w : CJ.WrapCls.Env} (h : StationEnv w) : CJ.WrapCls.TableWf w :=
+  fun d e he => prefix_table_wf e ((h d e).mp he)
+
+/-- **A transport answers an unexpected error only after a registered tag was presented**: min and
+obfs4 never do; prefix only when the tag window of one of its prefixes reveals, under a station key, the
+identifier of a registration on the probed phantom (registered under another transport or prefix).
+This is the only way into the handler's sleep-instead-of-read path (`always_reading`). -/
+theorem transport_error_needs_registered_tag (w : CJ.WrapCls.Env) (hw : StationEnv w)
+    (t : CJ.WrapCls.Tr) (d : Bytes) (h : CJ.WrapCls.cls w t d = .err) :
+    t = .prefix ∧ ∃ e ∈ CJ.Gen.prefixTable, ∃ r ∈ w.regs,
+      w.reveal (CJ.Wrap.window d e.offset) = some r.ident := by
+  cases t with
+  | min => exact absurd h (CJ.WrapCls.min_ne_err _ _)
+  | obfs4 => exact absurd h (CJ.WrapCls.obfs4_ne_err _ _ _)
+  | «prefix» =>
+    obtain ⟨e, he, r, hr, hrev⟩ :=
+      CJ.WrapCls.prefix_err_needs_registered_tag (w.table d) w.reveal w.regs d (hw.tableWf d) h
+    exact ⟨rfl, e, (hw d e).mp he, r, hr, hrev⟩
+
+/-- **A transport answers `found` only after a registered tag was presented**: the first 32 bytes are
+a registered identifier (min), a tag window reveals one (prefix), a registered mark is located (obfs4). -/
+theorem match_needs_registered_tag (w : CJ.WrapCls.Env) (hw : StationEnv w)
+    (t : CJ.WrapCls.Tr) (d : Bytes) (rid k : Nat) (h : CJ.WrapCls.cls w t d = .found rid k) :
+    (t = .min ∧ ∃ r ∈ w.regs, r.ident = CJ.Wrap.toHex (d.take 32)) ∨
+    (t = .prefix ∧ ∃ e ∈ CJ.Gen.prefixTable, ∃ r ∈ w.regs,
+      w.reveal (CJ.Wrap.window d e.offset) = some r.ident) ∨
+    (t = .obfs4 ∧ ∃ r ∈ w.regs, r.rid ∈ w.marks d) := by
+  cases t with
+  | min =>
+    obtain ⟨r, hr, _, hi, _⟩ := CJ.WrapCls.min_found_needs_tag _ _ _ _ h
+    exact Or.inl ⟨rfl, r, hr, hi⟩
+  | «prefix» =>
+    obtain ⟨e, he, r, hr, hrev⟩ :=
+      CJ.WrapCls.prefix_found_needs_registered_tag (w.table d) w.reveal w.regs d (hw.tableWf d) rid k h
+    exact Or.inr (Or.inl ⟨rfl, e, (hw d e).mp he, r, hr, hrev⟩)
+  | obfs4 =>
+    obtain ⟨r, hr, hrid, hm⟩ := CJ.WrapCls.obfs4_found_needs_mark _ _ _ _ _ h
+    exact Or.inr (Or.inr ⟨rfl, r, hr, hrid ▸ hm⟩)
+
+/-- A stream no prefix of which presents a registered tag to any transport is a probe (`NoMatch`),
+whichever transports are enabled. -/
+theorem untagged_is_probe (w : CJ.WrapCls.Env) (hw : StationEnv w) (ts : List CJ.WrapCls.Tr)
+    (evs : List Ev) (hu : CJ.WrapCls.Untagged w (dataOf evs)) : NoMatch (CJ.WrapCls.cls w) ts evs :=
+  fun t _ => CJ.WrapCls.untagged_quiet w hw.tableWf _ hu t
+
+/-- **The property for the real transports.**  Against min, prefix (the shipped table, any iteration
+order) and obfs4, with any registrations on the phantom, a connection that never presents a registered
+tag sees exactly: the deadline armed, everything it sends read, the return after the first read error
+(the deadline if it merely keeps sending or stays silent) — no sleep, no hand-off. -/
+theorem probe_view_real (w : CJ.WrapCls.Env) (hw : StationEnv w)
+    (sched : Nat → List CJ.WrapCls.Tr → List CJ.WrapCls.Tr) (hs : SchedOk sched) (count : Nat)
+    (ts : List CJ.WrapCls.Tr) (evs : List Ev) (hu : CJ.WrapCls.Untagged w (dataOf evs)) :
+    connView (handler (CJ.WrapCls.cls w) sched .ok count ts evs) =
+        .setDeadline :: ((readsOf evs).map .readData ++ [.readEnd (endOf evs), .ret]) ∧
+    .sleepUntilDeadline ∉ handler (CJ.WrapCls.cls w) sched .ok count ts evs ∧
+    ∀ a ∈ handler (CJ.WrapCls.cls w) sched .ok count ts evs,
+      a ≠ .clearDeadline ∧ (∀ r, a ≠ .markActive r) ∧ ∀ r s, a ≠ .proxy r s := by
+  have hn := untagged_is_probe w hw ts evs hu
+  refine ⟨probe_view _ sched hs count ts evs hn, probe_never_sleeps _ sched hs count ts evs hn, ?_⟩
+  intro a ha
+  rcases probe_only_reads _ sched hs count ts evs hn a ha with h | ⟨e, rfl⟩ | rfl
+  · refine ⟨?_, ?_, ?_⟩
+    · rintro rfl; cases h
+    · rintro r rfl; cases h
+    · rintro r s rfl; cases h
+  · exact ⟨by simp, by simp, by simp⟩
+  · exact ⟨by simp, by simp, by simp⟩
+
+/-- **The real transports have all given up by 8192 buffered bytes** (the obfs4 maximum handshake
+length; no decision length of the shipped prefix table is larger): the read that brings an untagged
+buffer to at least 8192 bytes is followed by not-transport answers only, after which the handler drains
+the connection until the first read error. -/
+theorem real_transports_give_up_by_8192 (w : CJ.WrapCls.Env) (hw : StationEnv w)
+    (sched : Nat → List CJ.WrapCls.Tr → List CJ.WrapCls.Tr) (hs : SchedOk sched)
+    (t : CJ.WrapCls.Tr) (ts : List CJ.WrapCls.Tr) (i : Nat) (buf c : Bytes) (evs : List Ev)
+    (hlen : CJ.Gen.WrapConsts.obfs4MaxHandshake ≤ (buf ++ c).length)
+    (hmin : CJ.WrapCls.MinUntagged w.regs (buf ++ c))
+    (hpre : CJ.WrapCls.PrefixUntagged (w.table (buf ++ c)) w.reveal w.regs (buf ++ c))
+    (hobf : CJ.WrapCls.Obfs4Untagged (w.marks (buf ++ c)) w.regs) :
+    ∃ qs : List (Act CJ.WrapCls.Tr Nat), (∀ a ∈ qs, ∃ u, a = Act.query u (buf ++ c).length .notT) ∧
+      loop (CJ.WrapCls.cls w) sched i (t :: ts) buf (.data c :: evs) =
+        Act.readData c.length :: (qs ++ Act.discardUntilErr :: CJ.ConnHandler.discard evs) := by
+  have h8 : (8192 : Nat) ≤ (buf ++ c).length := hlen
+  apply gives_up_at _ sched hs t ts i buf c evs
+  intro u _
+  refine CJ.WrapCls.untagged_long_notT w hw.tableWf _ hmin hpre hobf h8 ?_ u
+  intro e he
+  have := prefix_table_bound e ((hw _ e).mp he)
+  omega
 
 /-! ## Tie to the source: what `handleNewTCPConn` does with the connection (regenerated on every run)
 
@@ -295,5 +430,40 @@ example : connView (handler exCls (fun _ ts => ts) .ok 0 [0, 1] exProbe) =
 /-- the error path exists (it is excluded by `NoMatch`, not by the model): a transport that errors -/
 example : handler (fun (_ : Nat) (_ : Bytes) => (Verdict.err : Verdict Nat)) (fun _ ts => ts) .ok 1 [0]
     [.data [1]] = [.setDeadline, .readData 1, .query 0 1 .err, .sleepUntilDeadline, .ret] := by decide
+
+/-! ### the real transports: the hypotheses are satisfiable, and the error path is real -/
+
+/-- a station with one min registration whose identifier the probe does not present -/
+def exEnv : CJ.WrapCls.Env :=
+  { regs := [{ ident := CJ.Wrap.toHex (List.replicate 32 7), transport := 1, prefixParam := none, rid := 3 }],
+    table := fun _ => CJ.Gen.prefixTable, reveal := fun _ => none, marks := fun _ => [] }
+
+example : StationEnv exEnv := fun _ _ => Iff.rfl
+
+example : CJ.WrapCls.Untagged exEnv (dataOf [.data [7, 7], .data [7, 9]]) := by
+  intro n
+  have hS : dataOf [.data [7, 7], .data [7, 9]] = [7, 7, 7, 9] := rfl
+  rw [hS]
+  refine ⟨?_, ?_, ?_⟩
+  · intro r hr
+    simp only [exEnv, List.mem_singleton] at hr
+    subst hr
+    have h4 : ∀ m, ([7, 7, 7, 9] : Bytes).take (m + 4) = [7, 7, 7, 9] := fun m => by simp
+    rcases n with _ | _ | _ | _ | n
+    · decide
+    · decide
+    · decide
+    · decide
+    · rw [h4 n]; decide
+  · intro e _ r _; simp [exEnv]
+  · intro r _; simp [exEnv]
+
+/-- the same station asked with the registered identifier: min finds the registration -/
+example : CJ.WrapCls.cls exEnv .min (List.replicate 40 7) = .found 3 32 := by decide
+
+/-- the error path is real and needs a registered tag: a min registration's identifier revealed from
+the tag window of the prefix transport (`ErrIncorrectTransport`) -/
+example : CJ.WrapCls.cls { exEnv with reveal := fun _ => some (CJ.Wrap.toHex (List.replicate 32 7)) } .prefix
+    (List.replicate 64 0) = .err := by decide
 
 end CJ.Props.C03
